@@ -143,7 +143,7 @@ def freshKey (n : Nat) : Key := 200 + n
 def step (s : St) : List String → St × String
   | ["reset", a, b] =>
     match bool? a, bool? b with
-    | some a, some b => (⟨Mem.empty, RV.C01.Mem.init, a, b⟩, "ok")
+    | some a, some b => (⟨Mem.empty, RV.C01.NMem.init, a, b⟩, "ok")
     | _, _ => (s, "bad-op")
   | ["add", w, a, b, c, g] =>
     match top? w, triple3? a b c, garg? g with
@@ -258,7 +258,7 @@ def step (s : St) : List String → St × String
     | some k => (s, both (toString (Conc.vLen s.cm k)) (toString (vLen s.mem k)))
     | none => (s, "bad-op")
   | ["sctx"] => (s, both (showKeys (Conc.storeContexts s.cm)) (showKeys s.mem.allc))
-  | ["cerr"] => (s, if s.cm.err then "raised" else "ok")
+  | ["cerr"] => (s, if s.cm.cx.err then "raised" else "ok")
   | ["setdu", w, b] =>
     match top? w, bool? b with
     | some w, some b =>
@@ -304,4 +304,4 @@ def step (s : St) : List String → St × String
     | _, _, _ => (s, "bad-op")
   | _ => (s, "bad-op")
 
-def main : IO Unit := RV.Proto.run step (⟨Mem.empty, RV.C01.Mem.init, false, true⟩ : St)
+def main : IO Unit := RV.Proto.run step (⟨Mem.empty, RV.C01.NMem.init, false, true⟩ : St)
